@@ -307,7 +307,7 @@ def build(x):
                 let n = spur_len as int;
                 lemma_walk_prefix(g, query.source, query.target, prev_accepted_path@, n);
                 assert(root0 == prev_accepted_path@.take(n));
-                assert(spur_vertex_id == e_dst(g, prev_accepted_path@[n - 1]));
+                /*verif:obligation (C01: the spur search starts at the vertex where the root path ENDS -- the join of root and spur is contiguous)*/ assert(spur_vertex_id == e_dst(g, prev_accepted_path@[n - 1]));
                 assert(walk(&*yens_si.directed_graph, spur_vertex_id, query.target, spur_path@));
                 // the re-traversed spur path has the spur path's edge ids, in the same order
                 assert forall|i: int| 0 <= i < spur_path@.len() implies (#[trigger] spur0[i]).edge_id == spur_path@[i].edge_id by {
